@@ -17,6 +17,7 @@ pub mod c13;
 pub mod c14;
 pub mod c15;
 pub mod c16;
+pub mod c17;
 pub mod c18;
 pub mod c19;
 pub mod c20;
@@ -66,6 +67,7 @@ pub fn dispatch(prop: &str, tier: Tier, seed: u64, only: Option<usize>, args: &[
         "C14" => c14::run(&ctx),
         "C15" => c15::run(&ctx),
         "C16" => c16::run(&ctx),
+        "C17" => c17::run(&ctx),
         "C18" => c18::run(&ctx),
         "C19" => c19::run(&ctx),
         "C20" => c20::run(&ctx),
